@@ -15,6 +15,7 @@ import importlib
 import json
 import os
 import random
+import re
 import shutil
 import signal
 import subprocess
@@ -83,6 +84,16 @@ def short_exc(exc, limit=300):
 
 
 # ------------------------------------------------------------------ known findings
+def match_known(known, sig):
+    """entry of known_findings.json matching the signature (exact, then regex), else None"""
+    if sig in known and sig != "__regex__":
+        return known[sig]
+    for rx, e in known.get("__regex__", []):
+        if rx.search(sig):
+            return e
+    return None
+
+
 def load_known(prop):
     path = os.path.join(VERIF_ROOT, "known_findings.json")
     known, fixed = {}, []
@@ -90,11 +101,13 @@ def load_known(prop):
         with open(path) as f:
             data = json.load(f)
         for e in data.get("findings", []):
-            if e.get("property") != prop:
+            if e.get("property") != prop and prop not in e.get("properties", []):
                 continue
             if e.get("status") == "known":
-                for s in e.get("signatures", [e.get("signature")]):
+                for s in e.get("signatures", [e.get("signature")] if e.get("signature") else []):
                     known[s] = e
+                for rx in e.get("signature_regexes", []):
+                    known.setdefault("__regex__", []).append((re.compile(rx), e))
             else:
                 fixed.append(e)
     return known, fixed
@@ -273,7 +286,7 @@ def aggregate(mod, cid, tier, seed, n, nshards, recs, counters, cut, ended, dead
             if len(samples) < 4 and (r.get("sample") is not None or r.get("case") is not None) and r.get("nontrivial"):
                 samples.append(r.get("sample") if r.get("sample") is not None else r.get("case"))
         if s == "viol":
-            if r["sig"] in known:
+            if match_known(known, r["sig"]) is not None:
                 known_hits[r["sig"]] += 1
             else:
                 viols.append(r)
@@ -360,8 +373,16 @@ def aggregate(mod, cid, tier, seed, n, nshards, recs, counters, cut, ended, dead
         cid, tier, seed, done, n, evaluations, len(keys_nt), wall, dict(st)))
     if counters:
         print("monitors: " + ", ".join("%s=%d" % kv for kv in sorted(counters.items())[:40]))
+    printed = collections.OrderedDict()
     for sig, c in known_hits.items():
-        print("KNOWN-FINDING: property=%s %s [%s; %d cases this run]" % (cid, known[sig].get("description", sig), sig, c))
+        e = match_known(known, sig)
+        key = e.get("id", sig)
+        printed.setdefault(key, [e, 0, []])
+        printed[key][1] += c
+        printed[key][2].append(sig)
+    for key, (e, c, sigs) in printed.items():
+        print("KNOWN-FINDING: property=%s %s [%s: %d cases this run; signatures %s]" % (
+            cid, e.get("description", key), key, c, ", ".join(sorted(sigs)[:6])))
     if viols:
         for sig, path, c, detail in replay_paths:
             print("VIOLATION property=%s replay=%s" % (cid, path))
@@ -393,8 +414,8 @@ def do_replay(mod, cid, path):
     known, _ = load_known(cid)
     print(json.dumps({k: v for k, v in rec.items() if k != "case"}, indent=1, default=str))
     if rec.get("status") == "viol":
-        if rec["sig"] in known:
-            print("KNOWN-FINDING: property=%s %s" % (cid, known[rec["sig"]].get("description", rec["sig"])))
+        if match_known(known, rec["sig"]) is not None:
+            print("KNOWN-FINDING: property=%s %s" % (cid, match_known(known, rec["sig"]).get("description", rec["sig"])))
             return 0
         print("VIOLATION property=%s replay=%s" % (cid, path))
         return 1
